@@ -23,6 +23,10 @@ func IsPrimitiveType(t string) bool {
 	}
 }
 
+func isKnownTypeName(t string) bool {
+	return IsPrimitiveType(t) || t == TypeNameArray || t == TypeNameObject
+}
+
 func CleanNameForSorting(name string) string {
 	if strings.HasPrefix(name, PrefixEnumValue) {
 		return strings.TrimPrefix(name, PrefixEnumValue) + "_enumValues" // Append a string for sorting properly.
